@@ -300,7 +300,7 @@ func solveAll(fes []*FE, outDir string, timeout, workers int, second bool) {
 				mu.Lock()
 				cache[h] = j.ob
 				mu.Unlock()
-				if j.ob.Result == "unsat" && !j.ob.Smoke {
+				if j.ob.Result == "unsat" && !j.ob.Smoke && os.Getenv("GOVC_KEEP") == "" {
 					os.Remove(file)
 				}
 			}
